@@ -135,6 +135,25 @@ fn run_op(op: &str, sec: &[u8]) {
         "ed_neg" => traced!(&mut slot, -black_box(&sp1)),
         "ed_double" => traced!(&mut slot, black_box(&sp1) + black_box(&sp1)),
         "ed_ct_eq" => traced!(&mut slot, ct_eq_points(black_box(&sp1), black_box(&sp2))),
+        // the same secret point in two *representations*, chosen by a secret bit outside the traced region: freshly
+        // decoded (Z = 1, the shape of a point that arrived as bytes) or as left behind by arithmetic (random Z)
+        "ed_compress_mixed" | "ed_to_montgomery_mixed" | "ed_ct_eq_mixed" | "ed_mul_secret_point_mixed" | "ed_add_mixed" | "ris_compress_mixed" => {
+            let decoded = sp2.compress().decompress().expect("own encoding");
+            let p = black_box(if sec[1] & 1 == 1 { decoded } else { sp2 });
+            match op {
+                "ed_compress_mixed" => traced!(&mut slot, black_box(&p).compress()),
+                "ed_to_montgomery_mixed" => traced!(&mut slot, black_box(&p).to_montgomery()),
+                "ed_ct_eq_mixed" => traced!(&mut slot, ct_eq_points(black_box(&p), black_box(&sp1))),
+                "ed_mul_secret_point_mixed" => traced!(&mut slot, black_box(&p) * black_box(&s1)),
+                "ed_add_mixed" => traced!(&mut slot, black_box(&p) + black_box(&sp1)),
+                _ => {
+                    let r = curve25519_dalek::ristretto::RistrettoPoint::mul_base(&s2);
+                    let rd = r.compress().decompress().expect("own encoding");
+                    let rp = black_box(if sec[1] & 1 == 1 { rd } else { r });
+                    traced!(&mut slot, black_box(&rp).compress())
+                }
+            }
+        }
         "ed_mul_base" => traced!(&mut slot, EdwardsPoint::mul_base(black_box(&s1))),
         "ed_mul" => traced!(&mut slot, black_box(&pub_point) * black_box(&s1)),
         "ed_mul_secret_point" => traced!(&mut slot, black_box(&sp2) * black_box(&s1)),
